@@ -67,6 +67,8 @@ Proof. by case: us u u' => [nu P c u0|c u0] u u' //=; rewrite mulmxBr. Qed.
 
 Lemma mx0row k (A B : 'M[F]_(0, k)) : A = B.
 Proof. by rewrite [A]flatmx0 [B]flatmx0. Qed.
+Lemma mul_thin_flat m k (A : 'M[F]_(m, 0)) (B : 'M[F]_(0, k)) : A *m B = 0.
+Proof. by rewrite [A]thinmx0 mul0mx. Qed.
 Lemma mx0col k (A B : 'M[F]_(k, 0)) : A = B.
 Proof. by rewrite [A]thinmx0 [B]thinmx0. Qed.
 
@@ -118,6 +120,172 @@ split=> //.
 - rewrite -[LHS]/(symz (f_Q0 (kstep a Q p) - f_Q0 (kstep a Q p) *m ((p_Z p)^T *m f_Fi (kstep a Q p)) *m p_Z p *m f_Q0 (kstep a Q p))).
   by apply: symmetrize_id; apply: Q1_core.
 - exact: symmetrize_sym.
+Qed.
+
+
+(* ---------------------------------------------------------------- *)
+(* C03: one step = exact Gaussian conditioning                       *)
+(* ---------------------------------------------------------------- *)
+
+(* Prediction: the moments of alpha_t = T alpha_{t-1} + K + P u_t + v given alpha_{t-1} ~ (a, Q),
+   u_t ~ (u0, cov_u) independent.  Joint law of (alpha_t, y_t), y_t = Z alpha_t + D + H w_t with
+   w_t ~ (w0, cov_w) independent: means (a0, y0), covariances Q0, Q0 Z', F = Z Q0 Z' + H cov_w H'.
+   Update: (a1, Q1) are the conditional mean and covariance of alpha_t given y_t. *)
+Theorem step_is_conditioning a Q p (f : frec p) : step_spec a Q f ->
+  [/\ f_a0 f = p_T p *m a + p_K p + P_u0 (p_us p) + v_term p,
+      f_Q0 f = p_T p *m Q *m (p_T p)^T + P_cov_u_Pt (p_us p),
+      f_y0 f = p_Z p *m f_a0 f + p_D p + p_H p *m p_w0 p /\
+      f_F f = p_Z p *m f_Q0 f *m (p_Z p)^T + p_H p *m p_cov_w p *m (p_H p)^T,
+      f_a1 f = cond_mean (f_a0 f) (f_y0 f) (f_Q0 f *m (p_Z p)^T) (f_F f) (p_y p) &
+      f_Q1 f = cond_cov (f_Q0 f) (f_Q0 f *m (p_Z p)^T) (f_F f)].
+Proof.
+move=> sp; split; [exact: sp_a0 sp | exact: sp_Q0 sp | by split; [exact: sp_y0 sp | exact: sp_F sp] | |].
+- by rewrite /cond_mean (sp_a1 sp) (sp_G sp) (sp_pe sp) -(sp_Fi sp) !mulmxA.
+- by rewrite /cond_cov (sp_Q1 sp) (sp_G sp) -(sp_Fi sp) trmx_mul trmxK (sp_Q0s sp) !mulmxA.
+Qed.
+
+(* P cov_u P' is the covariance of the shock term P u (block form of the prediction covariance) *)
+Lemma predict_cov_block nu (T : 'M[F]_n) (P : 'M[F]_(n, nu)) (Q : 'M[F]_n) (C : 'M[F]_nu) :
+  row_mx T P *m block_mx Q 0 0 C *m (row_mx T P)^T = T *m Q *m T^T + P *m C *m P^T.
+Proof. by rewrite mul_row_block !mulmx0 addr0 add0r tr_row_mx mul_row_col. Qed.
+
+(* ---------------------------------------------------------------- *)
+(* likelihood                                                         *)
+(* ---------------------------------------------------------------- *)
+Notation fper := (fper M n nw).
+Hypothesis flogM : forall x y : F, x != 0 -> y != 0 -> flog (x * y) = flog x + flog y.
+
+Lemma flog1 : flog 1 = 0.
+Proof.
+have E := flogM (oner_neq0 F) (oner_neq0 F); rewrite mulr1 in E.
+by apply: (addrI (flog 1)); rewrite addr0 -E.
+Qed.
+
+Lemma flogV x : x != 0 -> flog x^-1 = - flog x.
+Proof.
+move=> nz; have E := flogM nz (invr_neq0 nz); rewrite mulfV // flog1 in E.
+by apply: (addrI (flog x)); rewrite -E subrr.
+Qed.
+
+(* the three pieces of a contribution, as field elements *)
+Definition ld (x : fper) : F := log_det_F x.
+Definition qf (x : fper) : F := pe_Fi_pe x.
+
+Lemma foldl_addE (l : seq F) (z : F) : List.fold_left +%R l z = z + \sum_(y <- l) y.
+Proof. by elim: l z => [|y l IH] z /=; rewrite ?big_nil ?addr0 // big_cons IH addrA. Qed.
+
+Lemma sum_scE (l : seq F) : sum_sc M l = \sum_(y <- l) y.
+Proof. by rewrite /sum_sc foldl_addE add0r. Qed.
+
+Lemma sum_lgE (l : seq F) : sum_lg M l = \sum_(y <- l) y.
+Proof. by rewrite /sum_lg foldl_addE add0r. Qed.
+
+Lemma foldl_addnE (l : seq nat) (z : nat) : List.fold_left Nat.add l z = (z + \sum_(y <- l) y)%N.
+Proof. by rewrite plusE; elim: l z => [|y l IH] z /=; rewrite ?big_nil ?addn0 // big_cons IH addnA. Qed.
+
+Lemma sum_natE (l : seq nat) : sum_nat l = (\sum_(y <- l) y)%N.
+Proof. by rewrite /sum_nat foldl_addnE add0n. Qed.
+
+Lemma Lmap_map A B (g : A -> B) (l : seq A) : List.map g l = [seq g y | y <- l].
+Proof. by elim: l => [|y l IH] //=; rewrite IH. Qed.
+
+(* a period without observations contributes nothing and leaves the state as predicted *)
+Theorem empty_period a Q p (f : frec p) : step_spec a Q f -> p_ny p = 0%N ->
+  [/\ contribution (mkFper p f) = 0, qf (mkFper p f) = 0, ld (mkFper p f) = 0,
+      f_a1 f = f_a0 f & f_Q1 f = f_Q0 f].
+Proof.
+move=> sp; case: p f sp => [ny T K us v Z H D cw w0 y] f sp /= E; move: Z H D y f sp; rewrite E => Z H D y f sp.
+split.
+- by [].
+- by rewrite /qf /pe_Fi_pe /= [f_pe f]flatmx0 mulmx0 mxE.
+- by rewrite /ld /log_det_F /det_Fi /= det_mx00 flog1 mulr0.
+- by rewrite (sp_a1 sp) /= [f_pe f]flatmx0 mulmx0 addr0.
+- by rewrite (sp_Q1 sp) /= mul_thin_flat mul0mx subr0.
+Qed.
+
+
+(* a contribution in closed form (for a period without observations every term vanishes) *)
+Lemma contributionE (x : fper) :
+  contribution x = 2%:R^-1 * (ld x + qf x + (num_obs x)%:R * flog2pi).
+Proof.
+case: x => p f; case: p f => [[|ny] T K us v Z H D cw w0 y] f; rewrite /contribution /num_obs /=.
+  rewrite /ld /qf /log_det_F /pe_Fi_pe /det_Fi /= det_mx00 flog1 mulr0 [f_pe f]flatmx0 mulmx0 mxE.
+  by rewrite mul0r !addr0 mulr0.
+by rewrite /ld /qf /log_det_F /pe_Fi_pe /det_Fi /= div1r.
+Qed.
+
+Lemma eqb0 k : Nat.eqb k 0 = (k == 0%N).
+Proof. by case: k. Qed.
+
+Definition N_of (fs : seq fper) : nat := (\sum_(x <- fs) num_obs x)%N.
+Definition LD_of (fs : seq fper) : F := \sum_(x <- fs) ld x.
+Definition QF_of (fs : seq fper) : F := \sum_(x <- fs) qf x.
+
+Lemma likelihood_sums (b : bool) (fs : seq fper) :
+  [/\ sum_nat (List.map num_obs fs) = N_of fs,
+      sum_lg M (List.map log_det_F fs) = LD_of fs &
+      sum_sc M (List.map pe_Fi_pe fs) = QF_of fs].
+Proof. by rewrite sum_natE sum_lgE sum_scE !Lmap_map !big_map. Qed.
+
+(* C03: without variance rescaling the total is the sum of the contributions, and it is the
+   prediction-error decomposition 1/2 (N log 2pi + sum log det F_t + sum pe_t' F_t^-1 pe_t) *)
+Theorem contributions_sum (fs : seq fper) :
+  sum_lg M (contributions fs) = l_nll (likelihood false fs)
+  /\ l_nll (likelihood false fs) = 2%:R^-1 * ((N_of fs)%:R * flog2pi + LD_of fs + QF_of fs).
+Proof.
+have [EN EL EQ] := likelihood_sums false fs.
+have E2 : l_nll (likelihood false fs) = 2%:R^-1 * ((N_of fs)%:R * flog2pi + LD_of fs + QF_of fs).
+  by rewrite /likelihood EN EL EQ /= div1r.
+split=> //; rewrite E2 /contributions sum_lgE Lmap_map big_map.
+rewrite (eq_bigr _ (fun x _ => contributionE x)) -mulr_sumr !big_split /= -mulr_suml.
+rewrite /N_of /LD_of /QF_of natr_sum.
+by rewrite [X in _ * X]addrC addrA.
+Qed.
+
+(* C03: with rescale_variance the reported total is the likelihood concentrated with respect to a
+   common variance factor; the contributions are NOT rescaled by the code, so they no longer sum to
+   it: the gap is 1/2 (QF - N - N log(QF / N)) *)
+Theorem rescaled_likelihood (fs : seq fper) :
+  N_of fs != 0%N -> QF_of fs != 0 ->
+  let vs := QF_of fs / (N_of fs)%:R in
+  [/\ l_var_scale (likelihood true fs) = vs,
+      l_nll (likelihood true fs)
+        = 2%:R^-1 * ((N_of fs)%:R * flog2pi + (LD_of fs + (N_of fs)%:R * flog vs) + (N_of fs)%:R) &
+      sum_lg M (contributions fs) - l_nll (likelihood true fs)
+        = 2%:R^-1 * (QF_of fs - (N_of fs)%:R - (N_of fs)%:R * flog vs)].
+Proof.
+move=> Nnz Qnz vs.
+have [EN EL EQ] := likelihood_sums true fs.
+have [Es E2] := contributions_sum fs.
+have Nr : (N_of fs)%:R != 0 :> F by rewrite pnatr_eq0.
+have Evs : QF_of fs / vs = (N_of fs)%:R by rewrite /vs invf_div mulrCA mulfV // mulr1.
+have E1 : l_var_scale (likelihood true fs) = vs.
+  by rewrite /likelihood EN EL EQ /= eqb0 (negbTE Nnz).
+have E3 : l_nll (likelihood true fs)
+        = 2%:R^-1 * ((N_of fs)%:R * flog2pi + (LD_of fs + (N_of fs)%:R * flog vs) + (N_of fs)%:R).
+  by rewrite /likelihood EN EL EQ /= eqb0 (negbTE Nnz) /= div1r -/vs Evs.
+split=> //; rewrite Es E2 E3.
+by ring.
+Qed.
+
+(* a data set without any observation: nothing to rescale *)
+Theorem rescaled_likelihood_no_obs (fs : seq fper) :
+  N_of fs = 0%N ->
+  l_var_scale (likelihood true fs) = 1 /\ l_nll (likelihood true fs) = 2%:R^-1 * LD_of fs.
+Proof.
+move=> N0; have [EN EL EQ] := likelihood_sums true fs.
+by rewrite /likelihood EN EL EQ N0 /= div1r mul0r add0r addr0.
+Qed.
+
+(* C03: each contribution is the negative log density of the period's observations under the
+   predictive Gaussian N(y0_t, F_t) *)
+Theorem contribution_is_nll a Q p (f : frec p) : step_spec a Q f -> f_F f \in unitmx ->
+  contribution (mkFper p f) = nll_gauss flog flog2pi (f_y0 f) (f_F f) (p_y p).
+Proof.
+move=> sp uF; rewrite contributionE /nll_gauss /ld /qf /log_det_F /pe_Fi_pe /det_Fi /num_obs /=.
+rewrite (sp_Fi sp) det_inv flogV; last by move: uF; rewrite unitmxE unitfE.
+rewrite mulN1r opprK /maha -(sp_pe sp).
+by rewrite [X in _ * X]addrC addrA.
 Qed.
 
 End KalmanProofs.
